@@ -21,9 +21,8 @@ func init() {
 		Run:   runC10,
 		Explanation: "C10.lang: L(roman.pattern) equals the reference language built from the statement (any number of M; per position five? one{0,4} | one five | one ten; case-insensitive), decided on DFAs with a shortest witness on difference. " +
 			"C10.same: Valid and DefaultParser share checkInputLength and match the same pattern; after a successful match the parser has no error return. " +
-			"C10.case: the set of byte constants against which raw input bytes are compared in the value function (propagated through the groups table and ±lowerShift) is closed under ASCII case swap and contained in the regexp alphabet (or the input is case-normalised first). " +
-			"C10.groups: DefaultParser evaluated abstractly (non-empty input within the limit, the match returning five opaque captures, the groups table resolved to its rows, the value function uninterpreted): the result is len(capture 1) × 1000 + value(capture 2; 100, D, M) + value(capture 3; 10, L, C) + value(capture 4; 1, V, X), each term once, in any order of summation; every sum and product on the way to the result is 64 bits wide on the analysed target (int is 32 bits under GOARCH=386: the thorough tier's second pass). " +
-			"C10.value: the value function is extracted as a decision table over (length, first two bytes vs five/ten symbol in either case); that table is evaluated inside the checker on every word of each capture group's finite language against an independent roman evaluator. C10.empty, S-ERRZERO, S-WRAP, typed errors, limit strictness for package roman. Only roman.parseGroup (the function C10.value decides) is abstracted as \"the value of a group\"; any other function on the way is evaluated; a conversion of the sum or of a term to a narrower integer type is reported like a narrow sum. C10.empty: the empty-input scenarios are evaluated with the rule value as a bit vector whose RuleDisableEmptyAsZero bit is fixed and whose other bits are unknown.",
+			"C10.groups: the regexp's skeleton is ^<1><2><3><4>$; every sum and product on the way to the result is 64 bits wide on the analysed target (int is 32 bits under GOARCH=386: the thorough tier's second pass); and the value itself is decided on the finite languages of the three group captures (enumerated from the regexp's DFA): DefaultParser is evaluated abstractly — non-empty input within the limit, the thousands capture symbolic — for every spelling of every group in either letter case, the other groups empty, and for every combination of upper-case spellings of the three groups; the result must be len(capture 1) × 1000 + the value an independent reading of the spellings gives (five-symbol then ones; one before five = 4, before ten = 9; ones only), whatever shape the value function has. " +
+			"C10.empty, S-ERRZERO, S-WRAP, typed errors, limit strictness for package roman. Only roman.parseGroup (the function C10.value decides) is abstracted as \"the value of a group\"; any other function on the way is evaluated; a conversion of the sum or of a term to a narrower integer type is reported like a narrow sum. C10.empty: the empty-input scenarios are evaluated with the rule value as a bit vector whose RuleDisableEmptyAsZero bit is fixed and whose other bits are unknown.",
 		NotDecided:  []string{"uint64 overflow of len(capture 1) × 1000 (needs > 1.8e16 M, beyond any input limit)"},
 		Assumptions: []string{"regexp/syntax compiles the pattern to the automaton regexp executes"},
 		Technique:   "regular-language equality on DFAs + constant-set propagation over go/ssa",
